@@ -222,3 +222,27 @@ func vfTier() int { return int(vfCur.Vals["$tier"]) }
 // vfFormatFailAt(k): symbolic runs make the k-th go/format.Node call fail; natively format.Node is the
 // real printer and this is a no-op (failures of the real printer cannot be injected).
 func vfFormatFailAt(k int) {}
+
+// Concurrency API (C16). Natively the two bodies run on two goroutines (under `go test -race` the Go
+// race detector is the judge); symbolically they are executed one after the other with all accesses to
+// shared memory recorded, and vfRaceFree is a solver query over schedules.
+func vfShared(x interface{}) {}
+
+func vfParallel(f1, f2 func()) {
+	done := make(chan interface{}, 2)
+	run := func(f func()) {
+		defer func() { done <- recover() }()
+		f()
+	}
+	go run(f1)
+	go run(f2)
+	r1, r2 := <-done, <-done
+	if r1 != nil {
+		panic(r1)
+	}
+	if r2 != nil {
+		panic(r2)
+	}
+}
+
+func vfRaceFree() bool { return true }
